@@ -48,9 +48,11 @@ impl Expression for Return {
     }
 
     fn type_info(&self, state: &TypeState) -> TypeInfo {
+        // The returned expression is evaluated before the program ends, so its
+        // side effects are part of the resulting state.
         let value = self.expr.type_info(state);
         TypeInfo::new(
-            state,
+            value.state,
             TypeDef::never().with_returns(value.result.kind().clone()),
         )
     }
